@@ -49,6 +49,7 @@ print(conf)
 m = {'property': meta['property'], 'seed': name,
      'author': 'independent sub-agent given only the property text (plus one line each on the seeds already used for this property, for diversity) and a scratch worktree',
      'change': meta.get('change'), 'violates': meta.get('violates'), 'commit_message': meta.get('commit_message'), 'confirmed': conf}
+json.dump(m, open(os.path.join(out, 'meta.json'), 'w'), indent=1)  # seeds.py reads it
 r = subprocess.run(['python3', os.path.join(V, 'tools', 'seeds.py'), '--all-checks', name], capture_output=True, text=True, env=env)
 line = [l for l in r.stdout.splitlines() if l.startswith(('caught', 'MISSED'))]
 print('\n'.join(line) or r.stdout[-500:] + r.stderr[-500:])
